@@ -68,6 +68,12 @@ def window(tg, w):
     def f(k):
         if k is None:
             return None
+        if isinstance(k, float) and k != int(k):
+            # a date between two grid points (fraction of the step)
+            lo = int(np.floor(k))
+            a, b = f(lo), f(lo + 1)
+            return a + (b - a) * (k - lo)
+        k = int(k)
         if 0 <= k < tg.T:
             return tg.timepoints[k]          # a grid point also on irregular grids (DST days, months)
         if k == tg.T:
